@@ -43,15 +43,11 @@ VARIABLES
     alive,    \* sender handles neither dropped nor closed
     rclosed,  \* the receiver called close()
     rcvd,     \* items received so far, in order
-    dup,      \* senders that re-polled a pending send without having been woken (legal
-              \* spurious poll) and were answered Pending again: a duplicate waker registration
-    lastBy,   \* how the last live sender handle went away: "" (some are alive), "close"
-              \* (close_this_sender) or "drop"
     bad,      \* names of the answer-level rules broken so far in this case
     odd       \* answers that differ from the abstract channel without contradicting C16
               \* (e.g. Pending although there is room): reported as model drift only
 
-mvars == <<n, cap, progs, rclose, pcs, st, woken, abuf, alive, rclosed, rcvd, dup, lastBy, bad, odd>>
+mvars == <<n, cap, progs, rclose, pcs, st, woken, abuf, alive, rclosed, rcvd, bad, odd>>
 
 Tasks == 0..n
 Senders == 1..n
@@ -65,8 +61,6 @@ MInit(N, C, P, RC) ==
     /\ alive = 1..N
     /\ rclosed = FALSE
     /\ rcvd = <<>>
-    /\ dup = {}
-    /\ lastBy = ""
     /\ bad = {}
     /\ odd = {}
 
@@ -79,8 +73,6 @@ MReset(N, C, P, RC) ==
     /\ alive' = 1..N
     /\ rclosed' = FALSE
     /\ rcvd' = <<>>
-    /\ dup' = {}
-    /\ lastBy' = ""
     /\ bad' = {}
     /\ odd' = {}
 
@@ -127,23 +119,19 @@ MSender(t, op, item, r, w) ==
               /\ abuf' = IF r = "ok" THEN Append(abuf, item) ELSE abuf
               /\ st' = [st EXCEPT ![t] = IF r = "pending" THEN "wait" ELSE fin]
               /\ pcs' = [pcs EXCEPT ![t] = IF r = "pending" THEN @ ELSE @ + 1]
-              /\ dup' = IF r = "pending" /\ st[t] = "wait" /\ t \notin woken
-                        THEN dup \cup {t} ELSE dup
-              /\ UNCHANGED <<alive, lastBy>>
+              /\ UNCHANGED alive
          [] op = "close" ->
               /\ r = "ok"
               /\ alive' = alive \ {t}
-              /\ lastBy' = IF alive = {t} THEN "close" ELSE lastBy
               /\ st' = [st EXCEPT ![t] = fin]
               /\ pcs' = [pcs EXCEPT ![t] = @ + 1]
-              /\ UNCHANGED <<abuf, dup, bad, odd>>
+              /\ UNCHANGED <<abuf, bad, odd>>
          [] op = "drop" ->
               /\ r = "ok"
               /\ alive' = alive \ {t}
-              /\ lastBy' = IF alive = {t} THEN "drop" ELSE lastBy
               /\ st' = [st EXCEPT ![t] = "done"]
               /\ pcs' = [pcs EXCEPT ![t] = @ + 1]
-              /\ UNCHANGED <<abuf, dup, bad, odd>>
+              /\ UNCHANGED <<abuf, bad, odd>>
          [] OTHER -> FALSE
     /\ woken' = w
     /\ UNCHANGED <<n, cap, progs, rclose, rclosed, rcvd>>
@@ -171,7 +159,7 @@ MRecv(op, r, v, w) ==
               /\ UNCHANGED <<abuf, rcvd, bad, odd>>
          [] OTHER -> FALSE
     /\ woken' = w
-    /\ UNCHANGED <<n, cap, progs, rclose, pcs, alive, dup, lastBy>>
+    /\ UNCHANGED <<n, cap, progs, rclose, pcs, alive>>
 
 MStep(t, op, item, r, v, w) ==
     IF t = 0 THEN MRecv(op, r, v, w) ELSE MSender(t, op, item, r, w)
@@ -179,7 +167,7 @@ MStep(t, op, item, r, v, w) ==
 \* the implementation panicked inside a call
 MPanic ==
     /\ bad' = bad \cup {"panic"}
-    /\ UNCHANGED <<n, cap, progs, rclose, pcs, st, woken, abuf, alive, rclosed, rcvd, dup, lastBy, odd>>
+    /\ UNCHANGED <<n, cap, progs, rclose, pcs, st, woken, abuf, alive, rclosed, rcvd, odd>>
 
 -----------------------------------------------------------------------------
 (* Properties of C16 *)
@@ -210,16 +198,13 @@ WithinCap == cap = 0 \/ Len(abuf) <= cap
 C16Safety == NoRuleBroken /\ NoDup /\ WithinCap
 C16Wake == NoStrandedSender /\ NoSenderWaitingOnClosed /\ NoRecvAsleepOnItems /\ NoRecvAsleepOnClosed
 
-\* names (with a cause class where one is known) of the property-level rules broken now
+\* names of the property-level rules broken now
 Broken ==
     bad
     \cup (IF NoDup THEN {} ELSE {"NoDup"})
     \cup (IF WithinCap THEN {} ELSE {"WithinCap"})
-    \cup (IF NoStrandedSender THEN {}
-          ELSE {IF dup # {} THEN "NoStrandedSender/stale-duplicate-waker" ELSE "NoStrandedSender"})
+    \cup (IF NoStrandedSender THEN {} ELSE {"NoStrandedSender"})
     \cup (IF NoSenderWaitingOnClosed THEN {} ELSE {"NoSenderWaitingOnClosed"})
     \cup (IF NoRecvAsleepOnItems THEN {} ELSE {"NoRecvAsleepOnItems"})
-    \cup (IF NoRecvAsleepOnClosed THEN {}
-          ELSE {IF lastBy = "close" /\ ~rclosed THEN "NoRecvAsleepOnClosed/close_this_sender"
-                ELSE "NoRecvAsleepOnClosed"})
+    \cup (IF NoRecvAsleepOnClosed THEN {} ELSE {"NoRecvAsleepOnClosed"})
 =============================================================================
